@@ -2,6 +2,7 @@
 ground truth both exist.  Each builder returns (Package, job options)."""
 from __future__ import annotations
 
+import gen_pkg
 from gen_pkg import Ann, Attr, Cls, Enum_, Func, Init, Module, Package, Param
 
 
@@ -114,7 +115,15 @@ def two_readwrite_properties():
     return _pkg("wfp", [Module("wfp/mod_a.py", "wfp.mod_a", classes=[a, b], funcs=[Func("f009", [], ret=Ann("int"))])]), {}
 
 
-FIXED_BUILDERS = {f.__name__: f for f in [two_readwrite_properties]}
+def enum_with_method():
+    """fix 5e57c43: an enum that has a method (or a nested class) aborted the run with TypeError in _is_public"""
+    e = Enum_("Colour002", ["RED_003", "GREEN_004"], doc="Doc of Colour002.",
+              body_extra=gen_pkg.ENUM_BODY_EXTRA.replace("{k}", "005"))
+    m = Module("wfq/mod_a.py", "wfq.mod_a", enums=[e], funcs=[Func("f001", [], ret=Ann("int"))])
+    return _pkg("wfq", [m]), {}
+
+
+FIXED_BUILDERS = {f.__name__: f for f in [two_readwrite_properties, enum_with_method]}
 
 BUILDERS = {f.__name__: f for f in [enum_without_publicity_test, property_tuple_as_union, callable_attribute_untyped,
                                     none_result_suppresses_list, typevar_typed_attribute_dropped, private_class_as_type,
